@@ -97,6 +97,38 @@ func genSignCase(t *core.Tape, uniq string, mods []string) *signCase {
 		c.File = "lib" + uniq + ".dll"
 		c.Input = append([]byte(nil), repoFixture("ClassLibrary1.dll")...)
 		copy(c.Input[0x400:], []byte("verif:"+uniq)) // inside .text raw data: digest becomes unique, structure untouched
+	case "apk":
+		c.File = "app" + uniq + ".apk"
+		c.Input = repoFixture("dummy.apk")
+	case "xap":
+		c.File = "app" + uniq + ".xap"
+		c.Input = repoFixture("dummy.xap")
+	case "appx":
+		c.File = "App" + uniq + ".appx"
+		c.Input = repoFixture("App1_1.0.3.0_x64.appx")
+	case "cab":
+		c.File = "c" + uniq + ".cab"
+		c.Input = repoFixture("dummy.cab")
+	case "dmg":
+		c.File = "d" + uniq + ".dmg"
+		c.Input = repoFixture("dummy.dmg")
+	case "xar":
+		c.File = "p" + uniq + ".pkg"
+		c.Input = repoFixture("dummy.pkg")
+	case "deb":
+		c.PGP = true
+		c.File = "zlib" + uniq + ".deb"
+		c.Input = repoFixture("zlib1g_1.2.8.dfsg-5_i386.deb")
+		if c.Hash == crypto.SHA1 {
+			c.Digest, c.Hash, c.HashName = "sha256", crypto.SHA256, "SHA-256"
+		}
+	case "rpm":
+		c.PGP = true
+		c.File = "base" + uniq + ".rpm"
+		c.Input = repoFixture("rocky-basesystem-11-13.el9.noarch.rpm")
+		if c.Hash == crypto.SHA1 {
+			c.Digest, c.Hash, c.HashName = "sha256", crypto.SHA256, "SHA-256"
+		}
 	case "msi":
 		c.File = "pkg" + uniq + ".msi"
 		c.Input = repoFixture("dummy.msi")
